@@ -16,11 +16,11 @@ EXTENDS Integers, Sequences, FiniteSets, TLC
 CONSTANTS
   Procs,     \* set of process (goroutine) ids
   MaxOps,    \* operations each process may start
-  Pool,      \* sequence of subscriber descriptions [pat, sel, failAt]
+  Pool,      \* sequence of subscriber descriptions [pat, sel, failAt, hide]
   Ids,       \* event ids used by publish / unsubscribe
   EvIds,     \* events that may be published
   InitRegs,  \* set of possible initial registries (sequences over 1..Len(Pool))
-  SelKeys,   \* function: selection id -> sequence of <<responseKey, fieldName>>
+  SelKeys,   \* function: selection id -> sequence of <<responseKey, fieldName, condition>>
   EvVals     \* function: event id -> [fieldName -> value]
 
 Subs == 1..Len(Pool)
@@ -30,8 +30,11 @@ Range(f) == {f[i] : i \in DOMAIN f}
 Match(s, id) == Pool[s].pat = "*" \/ Pool[s].pat = id
 
 \* "the subscriber's own selection set applied to the event"
+\* A selection is <<responseKey, fieldName, condition>>: "" always there, "skip" carries @skip(if: $hide), "incl"
+\* @include(if: $hide), where $hide is a variable of the SUBSCRIBER'S request (given with it or defaulted there).
+Shown(s, k) == k[3] = "" \/ (k[3] = "skip" /\ ~Pool[s].hide) \/ (k[3] = "incl" /\ Pool[s].hide)
 MsgOf(s, ev) ==
-  LET ks == SelKeys[Pool[s].sel]
+  LET ks == SelectSeq(SelKeys[Pool[s].sel], LAMBDA k : Shown(s, k))
   IN  [i \in 1..Len(ks) |-> <<ks[i][1], EvVals[ev][ks[i][2]]>>]
 
 VARIABLES
